@@ -63,6 +63,9 @@ type ISStep struct {
 	LSP     *ISLSP    `json:"lsp,omitempty"`
 	Entries []ISEntry `json:"entries,omitempty"` // CSNP / PSNP
 	Full    bool      `json:"full,omitempty"`    // CSNP covers the whole LSP id range
+	Lo, Hi  uint8     `json:"-"`                 // (see RangeLo / RangeHi)
+	RangeLo uint8     `json:"range_lo,omitempty"` // partial CSNP: first ...
+	RangeHi uint8     `json:"range_hi,omitempty"` // ... and last originator (0000.0000.00xx) it covers
 }
 
 // ISLSP identifies an LSP version.
@@ -516,6 +519,11 @@ func (iw *isisWorld) exec(kind string, i int, s *Step) {
 		n := iw.cfg.Nbrs[s.Peer]
 		es := isEntries(s.IS.Entries)
 		c := &packet.CSNP{SourceID: types.SourceID{SystemID: sysID(n.Sys)}, StartLSPID: packet.LSPID{}, EndLSPID: packet.LSPID{SystemID: types.SystemID{255, 255, 255, 255, 255, 255}, PseudonodeID: 255, LSPNumber: 255}}
+		if !s.IS.Full {
+			// one PDU of a multi-part CSNP: it describes the LSPs of originators RangeLo..RangeHi only
+			c.StartLSPID = packet.LSPID{SystemID: sysID(s.IS.RangeLo)}
+			c.EndLSPID = packet.LSPID{SystemID: sysID(s.IS.RangeHi), PseudonodeID: 255, LSPNumber: 255}
+		}
 		if len(es) > 0 {
 			c.TLVs = []packet.TLV{packet.NewLSPEntriesTLV(es)}
 		}
